@@ -80,6 +80,7 @@ type result struct {
 	faults []string
 	nreq   int
 	state  string
+	stuck  string // the scheduler found the operation deadlocked or past its step horizon
 }
 
 var g1 = graphs.Build("G1")
@@ -165,7 +166,26 @@ func run(t *testing.T, c *explore.Ctx, cfg Cfg) *result {
 			hosts = []config.Host{hu, {Name: mir, Hostname: mir, TLS: config.TLSDisabled}, {Name: mir2, Hostname: mir2, TLS: config.TLSDisabled}}
 		}
 		rc := rcenv.New(net, nil, rcenv.Opts{Hosts: hosts, RetryLimit: cfg.Limit})
-		res.err, res.data = doOp(rc, cfg.Op)
+		// the operation runs under the scheduler with no branching at all: request arrivals of the
+		// goroutines of a copy are granted one at a time in goroutine-creation order, so an execution
+		// (and the request position a fault choice refers to) is a function of the choice list only
+		var sched *qsched.Sched
+		net.OnArrive = func(e *modelreg.Entry) {
+			if sched != nil {
+				sched.Point(qsched.KHTTP, "")
+			}
+		}
+		out := qsched.Run(c, qsched.Config{Branch: map[qsched.Kind]bool{}}, map[string]func(*qsched.Sched){"op": func(s *qsched.Sched) {
+			sched = s
+			res.err, res.data = doOp(rc, cfg.Op)
+		}}, []string{"op"})
+		sched = nil
+		net.OnArrive = nil
+		if out.Panic != nil {
+			res.err = fmt.Errorf("PANIC: %v", out.Panic)
+		} else if out.Deadlock || out.Horizon {
+			res.stuck = fmt.Sprintf("deadlock=%v horizon=%v %s", out.Deadlock, out.Horizon, out.DeadlockAt)
+		}
 		res.state = observable(net)
 	})
 	if other != nil {
@@ -312,6 +332,9 @@ func judge(cfg Cfg, r, base *result) (string, string) {
 	}
 	if r.nreq > 400 {
 		return "no-termination", fmt.Sprintf("%s issued more than 400 requests", cfg.Op)
+	}
+	if r.stuck != "" {
+		return "no-termination", fmt.Sprintf("%s did not return: %s", cfg.Op, r.stuck)
 	}
 	// state-changing requests and upload sessions only at the named registry
 	patch := map[string]int{}
